@@ -1,6 +1,6 @@
 """C16 — JSONL log streams stay well-formed, ordered and lossless.
 
-Five legs, each an exhaustive enumeration of a stated bounded space on the real code:
+Seven legs, each an exhaustive enumeration of a stated bounded space on the real code:
 
 (1) append   E3c  appender atomicity.  ``clematis.io.log.open`` is shadowed by a *virtual append device*: the real
              ``io.BufferedWriter`` (or the raw layer itself for ``buffering=0``) on top of a raw layer that records
@@ -22,6 +22,15 @@ Five legs, each an exhaustive enumeration of a stated bounded space on the real 
 (5) rotate   E1+E4 ``scripts/rotate_logs.main`` over all histories {append n bytes, rotate(max_bytes, backups N)}
              from every initial generation set, with a kill (BaseException) before every os-level call made by the
              rotation.  Oracle on contents (unique token per generation).
+(6) capture  E2   deferred writes: a record appended while a ``LogMux`` is active reaches the file only in the commit
+             phase.  Every producer history over {append the producer's one re-used dict, top-level updates of it} x
+             streams x CI x append entry point x path to the file (write-through, mux + ``logmux.flush``, mux +
+             ``LogStager`` + unbuffered writer).  Oracle: the file holds, in order, the value each record had when it
+             was appended — what the write-through path writes by construction.
+(7) rewrite-conc E3b ``rewrite_jsonl`` called by 2-3 real threads of one process (same target / two targets in one
+             directory) under the baton scheduler of ``mc.sched``: every schedule with <= bound preemptions, a switch
+             being possible before every source line of ``clematis/io/atomic.py``.  Oracle: no call fails, each target
+             is exactly one writer's complete record list (a reader thread, thorough tier, never sees anything else).
 """
 from __future__ import annotations
 
@@ -35,7 +44,7 @@ import shutil
 import tempfile
 import types
 
-from mc.runner import HarnessError, Run, Stats
+from mc.runner import NCPU, HarnessError, Run, Stats
 
 import clematis.io.log as clog
 import clematis.io.atomic as catomic
@@ -1406,6 +1415,439 @@ def _rotate_worker(chunk, st: Stats, scratch, depth):
 
 
 # =====================================================================================================
+# (6) deferred writes: records captured by an active LogMux, caller goes on, commit-phase flush
+# =====================================================================================================
+CAP_STREAMS = ("scheduler.jsonl", "t1.jsonl", "turn.jsonl", REFLECTION, "zz_custom.jsonl")
+CAP_MUT = ("set", "add", "del", "clr")          # top-level updates of the producer's dict between / after appends
+CAP_OPS = ("A",) + CAP_MUT                       # "A" = append the producer's (one, re-used) dict
+CAP_ENTRIES = ("io", "orch")                     # clematis.io.log.append_jsonl | orchestrator.logging.append_jsonl
+CAP_PATHS = ("direct", "flush", "stager", "stager1")
+
+
+def _cap_base(name):
+    r = {"turn": 7, "agent": "Ä✓", "step": 0, "queued": [], "ms": 1.25, "now": "2025-06-01T00:00:00Z"}
+    if name == "turn.jsonl":
+        r.update({"durations_ms": {"t1": 1.5}, "slice_idx": 1, "yielded": True})
+    return r
+
+
+def _cap_mutate(ev, op, c):
+    """top-level updates only (rebinding / adding / removing keys of the dict the producer owns); values that are
+    rebound are NEW objects — in-place edits of nested values are not part of the alphabet"""
+    if op == "set":
+        ev["step"] = c
+        ev["queued"] = ["B"] * c
+    elif op == "add":
+        ev["k%d" % c] = c
+    elif op == "del":
+        if "agent" in ev:
+            del ev["agent"]
+        else:
+            ev["agent"] = "re%d" % c
+    elif op == "clr":
+        ev.clear()
+        ev["step"] = c
+        ev["reset"] = True
+    else:
+        raise HarnessError("capture op %r" % (op,))
+
+
+def capture_histories(nmax):
+    for n in range(1, nmax + 1):
+        for h in itertools.product(CAP_OPS, repeat=n):
+            if "A" in h:
+                yield h
+
+
+def _cap_flush_staged(pairs, limit, writer):
+    """commit phase of orchestrator/parallel.py: stage the captured pairs, drain sorted, write unbuffered
+    (drain -> flush -> retry once on back-pressure)"""
+    iol.disable_staging()
+    stager = iol.enable_staging(byte_limit=limit)
+    try:
+        for fp, payload in pairs:
+            key = iol.default_key_for(file_path=fp, turn_id=7, slice_idx=0)
+            try:
+                stager.stage(fp, key, payload)
+            except RuntimeError as exc:
+                if str(exc) != "LOG_STAGING_BACKPRESSURE":
+                    raise
+                for rec in stager.drain_sorted():
+                    writer(rec.file_path, rec.payload)
+                stager.stage(fp, key, payload)
+        for rec in stager.drain_sorted():
+            writer(rec.file_path, rec.payload)
+    finally:
+        iol.disable_staging()
+
+
+def _cap_run(name, ci, entry, path, hist, d):
+    """one producer history on one path to the file.  CLEMATIS_LOG_DIR must be ``d``.  Returns ([(sig, what)], outcome)."""
+    import clematis.engine.util.logmux as lmux
+    from clematis.engine.orchestrator import logging as ologging
+    cls = _stream_class(name)
+    ci_on = isinstance(ci, str) and ci.lower() == "true"
+    fpath = os.path.join(d, name)
+    try:
+        os.unlink(fpath)
+    except FileNotFoundError:
+        pass
+    api = clog.append_jsonl if entry == "io" else ologging.append_jsonl
+    ev = _cap_base(name)
+    expected, later = [], []
+    res = []
+    buffered = 0
+    desc = "%s history %r via %s, path %s, CI=%r" % (name, list(hist), entry, path, ci)
+
+    def produce():
+        c = 0
+        for op in hist:
+            if op == "A":
+                expected.append(copy.deepcopy(ev))
+                keep = Jo(ev)
+                api(name, ev)
+                if Jo(ev) != keep:
+                    res.append(("capture:append-mutates-record:%s" % cls, desc + ": the caller's record changed during append"))
+            else:
+                c += 1
+                _cap_mutate(ev, op, c)
+                if expected:
+                    later.append(copy.deepcopy(ev))
+
+    old_ci = os.environ.get("CI")
+    _set_ci(ci)
+    try:
+        try:
+            if path == "direct":
+                produce()
+            elif path == "flush":
+                mux = lmux.LogMux()
+                with lmux.use_mux(mux):
+                    produce()
+                pairs = mux.dump()
+                buffered = len(pairs)
+                lmux.flush(pairs)
+            else:
+                mux, token = ologging._begin_log_capture()
+                try:
+                    produce()
+                    pairs = mux.dump()
+                    buffered = len(pairs)
+                finally:
+                    ologging._end_log_capture(token)
+                _cap_flush_staged(pairs, BIG if path == "stager" else 1, ologging._append_unbuffered)
+        except HarnessError:
+            raise
+        except Exception as e:
+            return res + [("capture:raises:%s" % type(e).__name__, desc + " raised %r" % (e,))], "raises"
+    finally:
+        _set_ci(old_ci)
+    try:
+        _, got = _read_jsonl(fpath)
+    except Exception as e:
+        return res + [("capture:malformed-or-missing-file", desc + ": %r" % (e,))], "malformed"
+    if len(got) != len(expected):
+        return res + [("capture:lost-or-duplicated", desc + ": %d records appended, %d lines in the file" % (len(expected), len(got)))], "lost"
+    for i, (want, g) in enumerate(zip(expected, got)):
+        bad = norm_clauses(name, want, g, ci_on)
+        if not bad:
+            continue
+        follows = any(not norm_clauses(name, s, g, ci_on) for s in later)
+        sig = ("capture:line-follows-later-update-of-callers-dict:%s" if follows else "capture:line-differs-from-appended-record:%s") % cls
+        res.append((sig, desc + ": appended record #%d was %s, the file holds %s (%s)" % (i, Jo(want), Jo(g), bad[0][1])))
+        return res, "aliased" if follows else "changed"
+    return res, (("ok-buffered" if buffered else "ok") if not res else "mutates")
+
+
+def check_capture(case):
+    """case: {kind:capture, stream, ci, entry, path, hist}"""
+    own = tempfile.mkdtemp(prefix="c16c", dir="/dev/shm" if os.path.isdir("/dev/shm") else None)
+    old_dir = os.environ.get("CLEMATIS_LOG_DIR")
+    os.environ["CLEMATIS_LOG_DIR"] = own
+    try:
+        return _cap_run(case["stream"], case["ci"], case["entry"], case["path"], tuple(case["hist"]), own)[0]
+    finally:
+        if old_dir is None:
+            os.environ.pop("CLEMATIS_LOG_DIR", None)
+        else:
+            os.environ["CLEMATIS_LOG_DIR"] = old_dir
+        shutil.rmtree(own, ignore_errors=True)
+
+
+def _capture_worker(chunk, st: Stats, scratch, cis):
+    d = os.path.join(scratch, "cap-%d" % os.getpid())
+    os.makedirs(d, exist_ok=True)
+    old_dir = os.environ.get("CLEMATIS_LOG_DIR")
+    os.environ["CLEMATIS_LOG_DIR"] = d
+    try:
+        for hist in chunk:
+            napp = hist.count("A")
+            first = hist.index("A")
+            updated_after = any(op != "A" for op in hist[first + 1:])
+            for name in CAP_STREAMS:
+                for ci in cis:
+                    for entry in CAP_ENTRIES:
+                        for path in CAP_PATHS:
+                            res, outcome = _cap_run(name, ci, entry, path, hist, d)
+                            st.add("states")
+                            st.add("validated")
+                            st.add("capture_cases")
+                            if outcome == "ok-buffered":
+                                st.add("capture_buffered")
+                            st.add("transitions", napp)
+                            if path != "direct" and updated_after:
+                                st.add("nontrivial")
+                            st.distinct("outcomes", ("capture", outcome, path, _stream_class(name), updated_after))
+                            if res:
+                                case = {"kind": "capture", "stream": name, "ci": ci, "entry": entry, "path": path, "hist": list(hist)}
+                                for sig, what in res:
+                                    _viol(st, sig, what, case)
+        if chunk:
+            st.sample({"kind": "capture", "stream": "scheduler.jsonl", "ci": "true", "entry": "io", "path": "flush", "hist": list(chunk[0])})
+    finally:
+        if old_dir is None:
+            os.environ.pop("CLEMATIS_LOG_DIR", None)
+        else:
+            os.environ["CLEMATIS_LOG_DIR"] = old_dir
+        shutil.rmtree(d, ignore_errors=True)
+
+
+# =====================================================================================================
+# (7) compaction by concurrent same-process writers: every schedule (<= bound preemptions) of the real threads
+# =====================================================================================================
+CONC_LISTS = {"s": [1], "m": [4, 6], "l": [5, 6, 7, 4, 1]}       # indices into RW_RECS: short / medium / long payloads
+CONC_STALE = b'{"stale": 1}\n{"stale": 2}\n'
+CONC_TIMEOUT = 120.0
+_REAL_LOCKS = None
+
+
+def _conc_records(i, code):
+    """writer i's record list: a tag record (payloads of two writers differ even when they have the same length)"""
+    return [{"writer": i, "list": code}] + [copy.deepcopy(RW_RECS[k]) for k in CONC_LISTS[code]]
+
+
+class _ConcScenario:
+    """n writer threads, writer i compacts files[i] with its own record list; optionally one reader thread that takes
+    a single whole-file read of every target at some instant of the schedule"""
+
+    def __init__(self, case, d):
+        self.files = list(case["files"])
+        self.codes = list(case["lists"])
+        self.pre = case["pre"]
+        self.reader = bool(case.get("reader"))
+        self.d = d
+        self.lists = [_conc_records(i, c) for i, c in enumerate(self.codes)]
+        self.n = len(self.files) + (1 if self.reader else 0)
+        self.traced = [catomic.__file__]
+
+    def _classify(self, name, raw):
+        """which complete content is this?  'absent' | 'stale' | writer index | None (neither)"""
+        if raw is None:
+            return "absent" if self.pre == "absent" else None
+        if self.pre == "stale" and raw == CONC_STALE:
+            return "stale"
+        try:
+            if raw and not raw.endswith(b"\n"):
+                return None
+            got = [json.loads(x.decode("utf-8")) for x in raw.split(b"\n")[:-1]]
+        except Exception:
+            return None
+        for i, f in enumerate(self.files):
+            if f == name and _records_match(name, self.lists[i], got) is None:
+                return i
+        return None
+
+    def _read(self, name):
+        try:
+            with open(os.path.join(self.d, name), "rb") as fh:
+                return fh.read()
+        except FileNotFoundError:
+            return None
+
+    def make(self, ex):
+        global _REAL_LOCKS
+        import threading
+        for f in os.listdir(self.d):
+            os.unlink(os.path.join(self.d, f))
+        if self.pre == "stale":
+            for name in set(self.files):
+                with open(os.path.join(self.d, name), "wb") as fh:
+                    fh.write(CONC_STALE)
+        # an implementation that serialises its writers with a module-level lock must not block a controlled thread
+        # outside the scheduler: such locks become scheduling points for the time of the exploration
+        if _REAL_LOCKS is None:
+            _REAL_LOCKS = (type(threading.Lock()), type(threading.RLock()))
+        swapped = []
+        for mod in (catomic, clog):
+            for k, v in list(vars(mod).items()):
+                if isinstance(v, _REAL_LOCKS):
+                    swapped.append((mod, k, v))
+                    setattr(mod, k, ex.lock("%s.%s" % (mod.__name__, k)))
+        ctx = {"errors": {}, "seen": [], "swapped": swapped}
+
+        def writer(i):
+            def body():
+                try:
+                    clog.rewrite_jsonl(self.files[i], copy.deepcopy(self.lists[i]))
+                except Exception as e:  # the operation's own failure is an outcome, not a harness problem
+                    ctx["errors"][i] = e
+            return body
+
+        def reader():
+            for name in sorted(set(self.files)):
+                ctx["seen"].append((name, self._read(name)))
+
+        bodies = [writer(i) for i in range(len(self.files))]
+        if self.reader:
+            bodies.append(reader)
+        return bodies, ctx
+
+    def judge(self, ex, ctx):
+        """returns ([(sig, what)], outcome class)"""
+        for mod, k, v in ctx["swapped"]:
+            setattr(mod, k, v)
+        desc = "writers %r compacting %r concurrently (file %s before)" % (self.codes, self.files, self.pre)
+        if ex.deadlock:
+            return [("rewrite:concurrent:deadlock", desc + ": no writer can continue")], "deadlock"
+        res = []
+        for i, e in sorted(ctx["errors"].items()):
+            res.append(("rewrite:concurrent:raises:%s" % type(e).__name__, desc + ": rewrite_jsonl of writer %d raised %r" % (i, e)))
+        for name, raw in ctx["seen"]:
+            if self._classify(name, raw) is None:
+                res.append(("rewrite:concurrent:reader-sees-incomplete-file", desc + ": a reader found %s holding %d bytes that are neither the "
+                            "previous content nor one writer's complete record list (head %r)" % (name, len(raw or b""), (raw or b"")[:60])))
+                break
+        winners = []
+        for name in sorted(set(self.files)):
+            w = self._classify(name, self._read(name))
+            if not isinstance(w, int):
+                raw = self._read(name)
+                res.append(("rewrite:concurrent:file-is-no-writers-record-list", desc + ": afterwards %s (%s bytes) holds %s" % (
+                    name, "no" if raw is None else len(raw),
+                    "the previous content" if w in ("stale", "absent") else "neither writer's complete record list (torn / mixed / garbled lines)")))
+                winners.append("bad")
+            else:
+                winners.append(w)
+        if res:
+            return res, "bad:" + res[0][0].split(":")[2]
+        return [], "ok:" + ",".join(str(w) for w in winners)
+
+
+def _conc_explore(sc, bound, on_exec):
+    """mc.sched.explore with a shorter watchdog (same DFS over schedule prefixes; every schedule with <= bound
+    preemptions is executed exactly once; the default schedule is executed twice to assert reproducibility)"""
+    from mc import sched
+    stack = [[]]
+    n = 0
+    by_pre = {}
+    max_points = 0
+    while stack:
+        prefix = stack.pop()
+        ex = sched.Execution(sc.n, prefix, sc.traced, timeout=CONC_TIMEOUT)
+        bodies, ctx = sc.make(ex)
+        ex.run(bodies)
+        if ex.error:
+            raise HarnessError("schedule explorer: %s" % ex.error)
+        if n == 0:
+            res0, out0 = sc.judge(ex, ctx)
+            ex2 = sched.Execution(sc.n, prefix, sc.traced, timeout=CONC_TIMEOUT)
+            b2, ctx2 = sc.make(ex2)
+            ex2.run(b2)
+            res2, out2 = sc.judge(ex2, ctx2)
+            if ex2.trace != ex.trace or ex2.deadlock != ex.deadlock or out0 != out2:
+                raise HarnessError("schedule explorer: the default schedule is not reproducible")
+            on_exec(ex, res0, out0)
+        else:
+            res, out = sc.judge(ex, ctx)
+            on_exec(ex, res, out)
+        n += 1
+        p = ex.preemptions()
+        by_pre[p] = by_pre.get(p, 0) + 1
+        max_points = max(max_points, ex.points)
+        stack.extend(sched.children(ex.trace, len(prefix), bound))
+    return {"executions": n, "by_preemptions": by_pre, "max_points": max_points}
+
+
+def conc_cases(thorough):
+    out = []
+    same = [("s", "l"), ("l", "s"), ("m", "m")]
+    for name in ("custom.jsonl", "t1.jsonl"):
+        for pre in ("absent", "stale"):
+            for a, b in same:
+                out.append({"kind": "rewrite-conc", "files": [name, name], "lists": [a, b], "pre": pre, "bound": 1, "reader": False})
+    # two different targets in one directory (staging names must not collide across targets either)
+    out.append({"kind": "rewrite-conc", "files": ["custom.jsonl", "t1.jsonl"], "lists": ["s", "l"], "pre": "stale", "bound": 1, "reader": False})
+    if thorough:
+        for pre in ("absent", "stale"):
+            for a, b in same:
+                out.append({"kind": "rewrite-conc", "files": ["custom.jsonl"] * 2, "lists": [a, b], "pre": pre, "bound": 2, "reader": False})
+                out.append({"kind": "rewrite-conc", "files": ["t1.jsonl"] * 2, "lists": [a, b], "pre": pre, "bound": 1, "reader": True})
+            out.append({"kind": "rewrite-conc", "files": ["custom.jsonl"] * 3, "lists": ["s", "l", "m"], "pre": pre, "bound": 1, "reader": False})
+        out.append({"kind": "rewrite-conc", "files": ["custom.jsonl", "t1.jsonl"], "lists": ["l", "s"], "pre": "absent", "bound": 2, "reader": False})
+    return out
+
+
+def _conc_worker(chunk, st: Stats, scratch):
+    d = os.path.join(scratch, "conc-%d" % os.getpid())
+    os.makedirs(d, exist_ok=True)
+    old_dir, old_ci = os.environ.get("CLEMATIS_LOG_DIR"), os.environ.get("CI")
+    os.environ["CLEMATIS_LOG_DIR"] = d
+    _set_ci("true")
+    try:
+        for case in chunk:
+            sc = _ConcScenario(case, d)
+            st.add("conc_programs")
+
+            def on_exec(ex, res, outcome, case=case):
+                st.add("states")
+                st.add("transitions", len(case["files"]))
+                st.add("validated")
+                st.add("conc_schedules")
+                st.add("conc_sched_points", ex.points)
+                if ex.preemptions() > 0:
+                    st.add("nontrivial")
+                st.distinct("outcomes", ("rewrite-conc", outcome, case["pre"], len(set(case["files"]))))
+                for sig, what in res:
+                    c = dict(case)
+                    c["choices"] = ex.choices()
+                    _viol(st, sig, what + " ; schedule (thread chosen at each choice point) %r" % (ex.choices(),), c)
+
+            info = _conc_explore(sc, case["bound"], on_exec)
+            for p, k in info["by_preemptions"].items():
+                st.add("conc_schedules_with_%d_preemptions" % p, k)
+            st.notes["conc_max_points_per_execution"] = max(st.notes.get("conc_max_points_per_execution", 0), info["max_points"])
+            st.notes["conc_max_schedules_per_program"] = max(st.notes.get("conc_max_schedules_per_program", 0), info["executions"])
+        if chunk:
+            st.sample({k: v for k, v in chunk[0].items()})
+    finally:
+        if old_dir is None:
+            os.environ.pop("CLEMATIS_LOG_DIR", None)
+        else:
+            os.environ["CLEMATIS_LOG_DIR"] = old_dir
+        _set_ci(old_ci)
+        shutil.rmtree(d, ignore_errors=True)
+
+
+def check_conc(case):
+    from mc import sched
+    own = tempfile.mkdtemp(prefix="c16k", dir="/dev/shm" if os.path.isdir("/dev/shm") else None)
+    old_dir, old_ci = os.environ.get("CLEMATIS_LOG_DIR"), os.environ.get("CI")
+    os.environ["CLEMATIS_LOG_DIR"] = own
+    _set_ci("true")
+    try:
+        sc = _ConcScenario(case, own)
+        ex, ctx = sched.run_schedule(sc.make, sc.n, sc.traced, case.get("choices") or [])
+        return sc.judge(ex, ctx)[0]
+    finally:
+        if old_dir is None:
+            os.environ.pop("CLEMATIS_LOG_DIR", None)
+        else:
+            os.environ["CLEMATIS_LOG_DIR"] = old_dir
+        _set_ci(old_ci)
+        shutil.rmtree(own, ignore_errors=True)
+
+
+# =====================================================================================================
 def _assert_seams():
     import inspect
     src = inspect.getsource(clog._append_jsonl_unbuffered)
@@ -1413,6 +1855,13 @@ def _assert_seams():
         raise HarnessError("seam missing: clematis.io.log._append_jsonl_unbuffered does not call open()")
     for mod, name in ((rl, "os"), (catomic, "os"), (rl, "main"), (iol, "LogStager"), (iol, "enable_staging"),
                       (iol, "default_key_for"), (iol, "normalize_for_identity"), (clog, "rewrite_jsonl")):
+        if not hasattr(mod, name):
+            raise HarnessError("seam missing: %s.%s" % (mod.__name__, name))
+    import clematis.engine.util.logmux as lmux
+    from clematis.engine.orchestrator import logging as ologging
+    for mod, name in ((lmux, "LogMux"), (lmux, "use_mux"), (lmux, "flush"), (ologging, "_begin_log_capture"),
+                      (ologging, "_end_log_capture"), (ologging, "_append_unbuffered"), (ologging, "append_jsonl"),
+                      (clog, "append_jsonl")):
         if not hasattr(mod, name):
             raise HarnessError("seam missing: %s.%s" % (mod.__name__, name))
 
@@ -1455,6 +1904,17 @@ def run(run: Run) -> None:
     wide = [(g, n) for g in (8, 9, 10, 11, 12, 13) for n in (11, 12, 13)]
     run.notes["rotation_wide_cases"] = len(wide)
     run.pmap(_rotate_wide_worker, wide, extra=(run.scratch,))
+    # (6) deferred writes under an active LogMux
+    cmax = 5 if th else 4
+    cis = (None, "true", "false", "TRUE") if th else (None, "true")
+    run.notes["capture_max_history"] = cmax
+    run.pmap(_capture_worker, list(capture_histories(cmax)), extra=(run.scratch, cis))
+    if not run.n.get("capture_buffered"):
+        raise HarnessError("seam bypassed: no append was buffered by an active LogMux (capture leg would be vacuous)")
+    # (7) concurrent compaction
+    ccases = conc_cases(th)
+    run.notes["conc_programs"] = len(ccases)
+    run.pmap(_conc_worker, ccases, extra=(run.scratch,), chunks=len(ccases), procs=NCPU)
 
     run.rule = (
         "append: every writer configuration (2 writers x 1-2 records, 3 writers x 1%s records; shapes unicode / 9 KiB / 70 KiB%s; "
@@ -1466,8 +1926,19 @@ def run(run: Run) -> None:
         "non-trivial = >=2 records and a finite limit; "
         "rewrite: every record list of length 0..%d over 9 records x 3 streams x file absent/stale, lists <=2 also with a kill before each os call; "
         "rotate: every history of depth <=%d over {append 3, append 10, rotate(max-bytes 8|16, backups 1|2|3)} from 48 initial states "
-        "(every subset of .1-.4 x live absent/6 B/20 B), every rotate also killed before each of its os-level calls; non-trivial = directory changed"
-        % ("-2" if th else "", " / 5 KiB" if th else "", "4096/8192/131072" if th else "4096/8192", nmax, nfiles, rmax, depth))
+        "(every subset of .1-.4 x live absent/6 B/20 B), every rotate also killed before each of its os-level calls; non-trivial = directory changed; "
+        "capture: every producer history of 1..%d steps over {append the producer's one re-used dict, rebind keys, add a key, delete/restore a key, "
+        "clear+refill} x 5 streams x CI in %s x 2 append entry points (io.log / orchestrator.logging) x 4 paths to the file (write-through; "
+        "LogMux via use_mux + logmux.flush; LogMux via _begin/_end_log_capture + LogStager + unbuffered writer with limit 32 MiB and limit 1): "
+        "the file holds, in order, the value every record had when it was appended (identity-normalised under CI); "
+        "non-trivial = buffered path and the dict updated after an append; "
+        "rewrite-conc: %d programs of 2%s same-process threads calling rewrite_jsonl (same target with short/long, long/short, equal-length "
+        "record lists; two targets in one directory; file absent/stale%s) x EVERY schedule with <= 1%s preemptions at line granularity "
+        "inside clematis/io/atomic.py: no call fails, each target ends as exactly one writer's complete record list; non-trivial = >=1 preemption"
+        % ("-2" if th else "", " / 5 KiB" if th else "", "4096/8192/131072" if th else "4096/8192", nmax, nfiles, rmax, depth,
+           cmax, "/".join(repr(c) for c in cis), len(ccases), "-3" if th else "",
+           "; the t1.jsonl two-writer programs also with a reader thread whose one whole-file read is placed by the schedule" if th else "",
+           " (<= 2 for the two-writer programs on custom.jsonl and one two-target program)" if th else ""))
     run.assume("a raw write() to a regular file is not short and an O_APPEND write(2) is atomic w.r.t. other appenders (POSIX local fs); "
                "open(path,'ab') maps to O_APPEND — the virtual device takes the semantics from the mode string")
     run.assume("append-only writers cannot observe each other, so each writer's raw-event sequence is obtained from a solo run and all "
@@ -1475,6 +1946,12 @@ def run(run: Run) -> None:
     run.assume("process death = BaseException raised before an os-level call (no power loss: completed renames/unlinks persist); rename(2) atomic")
     run.assume("records are JSON objects with valid Unicode strings and finite numbers (no lone surrogates / NaN)")
     run.assume("rewrite_jsonl fault plans beyond single kill points (errno faults, short writes, readers) are decided by C08")
+    run.assume("capture: between append and commit-phase flush the producer only rebinds / adds / removes TOP-LEVEL keys of its dict "
+               "(new value objects); in-place edits of nested lists/dicts of an already appended record and the raw "
+               "logmux.write_or_buffer hand-over are outside the alphabet (the statement is silent on them)")
+    run.assume("rewrite-conc: writers are threads of one process, a thread switch can happen before any source line of "
+               "clematis/io/atomic.py (library calls made from one line are atomic w.r.t. the schedule); schedules with more "
+               "preemptions than the bound and concurrent writer PROCESSES are not explored")
     run.assume("rotation threshold (size >= max-bytes rotates) taken from the script's documentation; generations beyond the requested N are not constrained")
 
 
@@ -1498,4 +1975,8 @@ def replay(case):
         return [(sg, w) for sg, (w, _c) in st.viol.items()]
     if k == "rotate":
         return check_rotate(case)
+    if k == "capture":
+        return check_capture(case)
+    if k == "rewrite-conc":
+        return check_conc(case)
     raise HarnessError("unknown case kind %r" % (k,))
